@@ -126,6 +126,8 @@ func showItem(it bodyItem) string {
 		return "raw:" + hx(it.data)
 	case "ej":
 		return "ej:" + showWireErr(it.err)
+	case "ejz":
+		return "ejz:" + showWireErr(it.err)
 	}
 	return "?"
 }
@@ -146,8 +148,8 @@ func parseItem(s string) bodyItem {
 		return bodyItem{kind: "web", header: parseHdr(p[1])}
 	case "raw":
 		return bodyItem{kind: "raw", data: unhx(p[1])}
-	case "ej":
-		return bodyItem{kind: "ej", err: parseWireErr(p[1])}
+	case "ej", "ejz":
+		return bodyItem{kind: p[0], err: parseWireErr(p[1])}
 	}
 	panic("bad item " + s)
 }
@@ -542,6 +544,8 @@ func (r *sresp) serialize(proto string) (http.Header, []byte, http.Header) {
 			body = append(body, it.data...)
 		case "ej":
 			body = append(body, marshalJSONError(it.err)...)
+		case "ejz":
+			body = append(body, compressNamed(r.header["Content-Encoding"][0], marshalJSONError(it.err))...)
 		case "end":
 			obj := map[string]any{}
 			if it.err != nil {
